@@ -271,50 +271,73 @@ func c16linecol(c *core.Ctx) {
 		return
 	}
 	line, col, index := results[0], results[1], params[0]
-	counters := map[string]bool{line: true, col: true}
-
-	var rng *ast.RangeStmt
+	recv := d.Decl.Recv.List[0].Names[0].Name
+	// the counting loop: `for _, c := range b.data[:index]` or `for i := 0; i < index; i++ { ... b.data[i] ... }`
+	var loopStmt ast.Stmt
+	var loopBody *ast.BlockStmt
 	var before, after []ast.Stmt
 	for _, st := range d.Decl.Body.List {
-		if r, ok := st.(*ast.RangeStmt); ok && rng == nil {
-			rng = r
-			continue
-		}
-		if f, ok := st.(*ast.ForStmt); ok && rng == nil {
-			_ = f
-			c.Bad(R, fn+":loop", c.P.Pos(st.Pos()), "counting loop of LineAndColumn", "the loop is not a range over the byte prefix; not decided by this rule")
-			return
-		}
-		if rng == nil {
+		if loopStmt == nil {
+			switch l := st.(type) {
+			case *ast.RangeStmt:
+				loopStmt, loopBody = l, l.Body
+				continue
+			case *ast.ForStmt:
+				loopStmt, loopBody = l, l.Body
+				continue
+			}
 			before = append(before, st)
 		} else {
 			after = append(after, st)
 		}
 	}
-	if rng == nil {
-		c.Bad(R, fn+":loop", pos, "counting loop of LineAndColumn", "no range loop found")
+	if loopStmt == nil {
+		c.Bad(R, fn+":loop", pos, "counting loop of LineAndColumn", "no loop found")
 		return
 	}
-	// (1) one step per byte of data[:index]
-	rt := core.TypeOf(pk, rng.X)
-	isBytes := false
-	if sl, ok := rt.Underlying().(*types.Slice); ok {
-		if b, ok := sl.Elem().Underlying().(*types.Basic); ok && b.Kind() == types.Uint8 {
-			isBytes = true
+	elemIdent, elemIndexVar := "", ""
+	stepsBytes, prefix := false, false
+	stepsWhat, prefixWhat := "", ""
+	switch l := loopStmt.(type) {
+	case *ast.RangeStmt:
+		rt := core.TypeOf(pk, l.X)
+		if sl, ok := rt.Underlying().(*types.Slice); ok {
+			if b, ok := sl.Elem().Underlying().(*types.Basic); ok && b.Kind() == types.Uint8 {
+				stepsBytes = true
+			}
 		}
+		stepsWhat = "range " + core.ExprStr(l.X) + " (" + rt.String() + ")"
+		se, isSlice := ast.Unparen(l.X).(*ast.SliceExpr)
+		prefix = isSlice && se.Max == nil && se.High != nil && core.ExprStr(se.High) == index && (se.Low == nil || core.ExprStr(se.Low) == "0") && core.ExprStr(se.X) == recv+".data"
+		prefixWhat = core.ExprStr(l.X)
+		if id, ok := l.Value.(*ast.Ident); ok {
+			elemIdent = id.Name
+		}
+	case *ast.ForStmt:
+		// i := 0 (possibly converted); i < index; i++
+		if init, ok := l.Init.(*ast.AssignStmt); ok && len(init.Lhs) == 1 && len(init.Rhs) == 1 {
+			if v := core.ConstOf(pk, init.Rhs[0]); v != nil && v.ExactString() == "0" {
+				elemIndexVar = core.ExprStr(init.Lhs[0])
+			}
+		}
+		inc, isInc := l.Post.(*ast.IncDecStmt)
+		be, isBin := ast.Unparen(l.Cond).(*ast.BinaryExpr)
+		prefix = elemIndexVar != "" && isInc && inc.Tok == token.INC && core.ExprStr(inc.X) == elemIndexVar && isBin && be.Op == token.LSS && core.ExprStr(be.X) == elemIndexVar && core.ExprStr(be.Y) == index
+		prefixWhat = "for " + core.ExprStr0(l.Init) + "; " + core.ExprStr(l.Cond) + "; " + core.ExprStr0(l.Post)
+		// the element read in the body is recv.data[i], a byte
+		ast.Inspect(l.Body, func(n ast.Node) bool {
+			if ix, ok := n.(*ast.IndexExpr); ok && core.ExprStr(ix.X) == recv+".data" && core.ExprStr(ix.Index) == elemIndexVar {
+				stepsBytes = true
+			}
+			return true
+		})
+		stepsWhat = "index loop reading " + recv + ".data[" + elemIndexVar + "]"
 	}
-	c.Check(isBytes, R, fn+":steps", c.P.Pos(rng.X.Pos()), "range "+core.ExprStr(rng.X)+" steps over bytes",
-		"the loop steps over "+rt.String()+": a multi-byte character counts as one column, the column is not the column of the byte (and a newline symbol is compared with a rune)")
-	se, isSlice := ast.Unparen(rng.X).(*ast.SliceExpr)
-	prefix := isSlice && se.Max == nil && se.High != nil && core.ExprStr(se.High) == index && (se.Low == nil || core.ExprStr(se.Low) == "0") && strings.HasSuffix(core.ExprStr(se.X), ".data")
-	c.Check(prefix, R, fn+":prefix", c.P.Pos(rng.X.Pos()), "the loop covers exactly the bytes before index: "+core.ExprStr(rng.X),
-		"the counted range is not data[:"+index+"]: the position is that of another byte")
-	// the value variable
-	cv := ""
-	if id, ok := rng.Value.(*ast.Ident); ok {
-		cv = id.Name
-	}
-	// newline variable: assigned from NewLineSymbol()
+	c.Check(stepsBytes, R, fn+":steps", c.P.Pos(loopStmt.Pos()), stepsWhat+" steps over bytes",
+		"the loop does not step over the bytes of the text ("+stepsWhat+"): a multi-byte character counts as one column, the column is not the column of the byte (and a newline symbol is compared with a rune)")
+	c.Check(prefix, R, fn+":prefix", c.P.Pos(loopStmt.Pos()), "the loop covers exactly the bytes before index: "+prefixWhat,
+		"the counted range is not data[:"+index+"] ("+prefixWhat+"): the position is that of another byte")
+	// the newline variable(s): assigned from NewLineSymbol()
 	nlVars := map[string]bool{}
 	for _, st := range before {
 		if as, ok := st.(*ast.AssignStmt); ok && len(as.Lhs) == 1 && len(as.Rhs) == 1 {
@@ -323,100 +346,80 @@ func c16linecol(c *core.Ctx) {
 			}
 		}
 	}
-	isNLCond := func(lit string) (bool, bool) { // (is newline test, truth meaning "is newline")
-		truth := strings.HasPrefix(lit, "+")
-		e := lit[1:]
-		for nl := range nlVars {
-			switch e {
-			case cv + " == " + nl, nl + " == " + cv:
-				return true, truth
-			case cv + " != " + nl, nl + " != " + cv:
-				return true, !truth
-			}
+	mk := func(l0, c0, b int64) *miniEval {
+		e := &miniEval{pk: pk, env: map[string]int64{line: l0, col: c0}, ctx: c}
+		for v := range nlVars {
+			e.env[v] = 10
 		}
-		for _, call := range []string{"b.NewLineSymbol()"} {
-			switch e {
-			case cv + " == " + call, call + " == " + cv:
-				return true, truth
-			case cv + " != " + call, call + " != " + cv:
-				return true, !truth
-			}
+		if elemIdent != "" {
+			e.env[elemIdent] = b
 		}
-		return false, false
+		if elemIndexVar != "" {
+			e.env[elemIndexVar] = 3
+		}
+		e.hook = func(x ast.Expr) (int64, bool) {
+			switch y := x.(type) {
+			case *ast.IndexExpr:
+				if core.ExprStr(y.X) == recv+".data" {
+					return b, true
+				}
+			case *ast.CallExpr:
+				if core.FullName(core.Callee(pk, y)) == "(bytes.Bytes).NewLineSymbol" {
+					return 10, true
+				}
+			}
+			return 0, false
+		}
+		return e
 	}
 	// (2) before the loop the counters are untouched on the path that reaches it
-	bp, okB := counterPaths(pk, before, counters)
-	cleanBefore := okB
-	for _, p := range bp {
-		if p.ret {
-			continue
+	{
+		e := mk(0, 0, 'x')
+		e.env[index] = 5
+		e.hook = func(x ast.Expr) (int64, bool) {
+			if call, ok := x.(*ast.CallExpr); ok {
+				f := core.ExprStr(call.Fun)
+				if strings.HasSuffix(f, ".Len") {
+					return 100, true
+				}
+				if strings.HasSuffix(f, ".NewLineSymbol") {
+					return 10, true
+				}
+			}
+			return 0, false
 		}
-		for _, e := range p.eff {
-			if e.set && e.val == 0 {
-				continue
-			}
-			if !e.set && e.val == 0 {
-				continue
-			}
-			cleanBefore = false
+		st, _ := e.run(before)
+		c.Check(e.unknown == "" && st == miniFall && e.env[line] == 0 && e.env[col] == 0, R, fn+":init", pos, "line and column start at zero", "the counters are changed before the loop, or the statements before it are not understood: "+e.unknown)
+	}
+	// (3) one step of the loop, for the newline symbol and for every other byte
+	bodyBad := ""
+	for b := int64(0); b < 256 && bodyBad == ""; b++ {
+		e := mk(7, 4, b)
+		st, _ := e.run(loopBody.List)
+		wantL, wantC := int64(7), int64(5)
+		if b == 10 {
+			wantL, wantC = 8, 0
+		}
+		switch {
+		case e.unknown != "":
+			bodyBad = "undecided: " + e.unknown
+		case st != miniFall && st != miniContinue:
+			bodyBad = core.F("byte %q: the loop stops early", rune(b))
+		case e.env[line] != wantL || e.env[col] != wantC:
+			bodyBad = core.F("byte %q (newline symbol is LF here): line %+d, column 4 -> %d; expected line %+d, column -> %d", rune(b), e.env[line]-7, e.env[col], wantL-7, wantC)
 		}
 	}
-	c.Check(cleanBefore, R, fn+":init", pos, "line and column start at zero", "the counters are changed before the loop")
-	// (3) loop body
-	lp, okL := counterPaths(pk, rng.Body.List, counters)
-	bodyOK := okL && cv != ""
-	seenNL, seenOther := false, false
-	detail := ""
-	for _, p := range lp {
-		if p.brk {
-			bodyOK = false
-			detail = "the loop stops early"
+	c.Check(bodyBad == "", R, fn+":step", c.P.Pos(loopBody.Pos()), "each byte: newline symbol -> line+=1, column=0; otherwise column+=1 (256 cells)", bodyBad)
+	// (4) after the loop both are reported 1-based
+	{
+		e := mk(7, 4, 'x')
+		st, rets := e.run(after)
+		gl, gc := e.env[line], e.env[col]
+		if st == miniReturn && len(rets) == 2 {
+			gl, gc = rets[0], rets[1]
 		}
-		isNL, decided := false, false
-		for _, lit := range p.conds {
-			if ok, nl := isNLCond(lit); ok {
-				isNL, decided = nl, true
-			} else {
-				bodyOK = false
-				detail = "a step depends on " + lit[1:] + ", not only on the byte being the newline symbol"
-			}
-		}
-		if !decided {
-			bodyOK = false
-			if detail == "" {
-				detail = "a step does not test the byte against the newline symbol"
-			}
-			continue
-		}
-		le, ce := p.eff[line], p.eff[col]
-		if isNL {
-			seenNL = true
-			if !(le == counterEff{val: 1}) || !(ce == counterEff{set: true, val: 0}) {
-				bodyOK = false
-				detail = "on the newline symbol: " + line + effStr(le) + ", " + col + effStr(ce) + " (want +=1, =0)"
-			}
-		} else {
-			seenOther = true
-			if !(le == counterEff{}) || !(ce == counterEff{val: 1}) {
-				bodyOK = false
-				detail = "on another byte: " + line + effStr(le) + ", " + col + effStr(ce) + " (want +=0, +=1)"
-			}
-		}
+		c.Check(e.unknown == "" && st == miniReturn && gl == 8 && gc == 5, R, fn+":onebased", pos, "after the loop line+=1 and column+=1 (1-based)", core.F("after the loop: line %+d, column %+d (%s)", gl-7, gc-4, e.unknown))
 	}
-	if !okL && detail == "" {
-		detail = "the loop body changes the counters through a construct this rule does not evaluate"
-	}
-	c.Check(bodyOK && seenNL && seenOther, R, fn+":step", c.P.Pos(rng.Body.Pos()), "each byte: newline symbol -> line+=1, column=0; otherwise column+=1", detail)
-	// (4) after the loop
-	ap, okA := counterPaths(pk, after, counters)
-	afterOK := okA && len(ap) > 0
-	for _, p := range ap {
-		if len(p.conds) != 0 || !(p.eff[line] == counterEff{val: 1}) || !(p.eff[col] == counterEff{val: 1}) {
-			afterOK = false
-			detail = line + effStr(p.eff[line]) + ", " + col + effStr(p.eff[col])
-		}
-	}
-	c.Check(afterOK, R, fn+":onebased", pos, "after the loop line+=1 and column+=1 (1-based)", "after the loop: "+detail)
 
 	// (5) SetIndex stores before it recounts; countLineAndColumn uses e.index and e.file
 	if sd := c.P.FindDecl("(*kit.JSchemaError).SetIndex"); sd == nil {
